@@ -74,6 +74,8 @@ pub enum BOp {
     Release(u8),
     Read(u8),
     Write(u8, u8),
+    /// presence queries with whatever guards are alive: 0 contains, 1 contains_at_top, 2 StateReq::require
+    Presence(u8, u8),
 }
 
 enum Guard<'a> {
@@ -191,6 +193,13 @@ impl BModel {
                 self.guards.remove(i as usize);
                 R::Unit
             }
+            // presence does not depend on borrows: path 0 A in the top scope, 1 A asked at the outer scope,
+            // 2 B only in the outer scope asked at the top, 3 B asked at the outer scope, 4 absent
+            BOp::Presence(path, q) => R::Val(match (path, q) {
+                (4, _) => 0,
+                (2, 1) => 0,
+                _ => 1,
+            }),
             BOp::Read(i) => R::Val(self.values[self.guards[i as usize].0 as usize]),
             BOp::Write(i, v) => {
                 let c = self.guards[i as usize].0 as usize;
@@ -255,6 +264,24 @@ fn apply_b<'a>(st: &'a St, guards: &mut Vec<Guard<'a>>, op: &BOp) -> R {
             drop(guards.remove(i as usize));
             R::Unit
         }
+        BOp::Presence(path, q) => {
+            let reg = reg_for(st, path);
+            macro_rules! ask {
+                ($T:ty) => {
+                    match q {
+                        0 => reg.contains::<$T>(),
+                        1 => reg.contains_at_top::<$T>(),
+                        // StateReq is built from the state itself (the top scope)
+                        _ => st.requirements().require::<(), $T>().is_ok(),
+                    }
+                };
+            }
+            R::Val(match path {
+                0 | 1 => ask!(A),
+                2 | 3 => ask!(B),
+                _ => ask!(X),
+            } as u8)
+        }
         BOp::Read(i) => R::Val(match &guards[i as usize] {
             Guard::Shared(r) => **r,
             Guard::Excl(r) => **r,
@@ -283,6 +310,7 @@ fn bname(op: &BOp) -> String {
         BOp::GetValue(p) => format!("get_value {}", PATH[*p as usize]),
         BOp::SetValue(p, _) => format!("set_value {}", PATH[*p as usize]),
         BOp::Release(_) => "release".into(),
+        BOp::Presence(p, q) => format!("{} {}", ["contains", "contains_at_top", "require"][*q as usize], PATH[*p as usize]),
         BOp::Read(_) => "read-through-guard".into(),
         BOp::Write(_, _) => "write-through-guard".into(),
     }
@@ -401,6 +429,12 @@ impl System for Borrows {
             v.push(BOp::GetValue(path));
             v.push(BOp::SetValue(path, 2));
             v.push(BOp::SetValue(path, 0));
+            for q in 0..3u8 {
+                if q == 2 && (path == 1 || path == 3) {
+                    continue;
+                }
+                v.push(BOp::Presence(path, q));
+            }
         }
         for (i, g) in key.guards.iter().enumerate() {
             v.push(BOp::Release(i as u8));
@@ -880,6 +914,7 @@ fn parse_bop(v: &Value) -> Result<BOp, String> {
         "GetValue" => BOp::GetValue(a(0)),
         "SetValue" => BOp::SetValue(a(0), a(1)),
         "Release" => BOp::Release(a(0)),
+        "Presence" => BOp::Presence(a(0), a(1)),
         "Read" => BOp::Read(a(0)),
         "Write" => BOp::Write(a(0), a(1)),
         o => return Err(format!("unknown op {}", o)),
